@@ -137,6 +137,8 @@ def reply_groups(tier):
         RM(fn="sd", handlers=("d",), on="success", data="typed", data_ty="String", payload=("u32",)), RM(fn="ed", handlers=("d",), on="error", payload=("u32",)),
         RM(fn="si", handlers=("i",), on="success", data="instantiate,opt"), RM(fn="ei", handlers=("i",), on="error"),
         RM(fn="su", handlers=("u",), on="success", raw_marked=False), RM(fn="eu", handlers=("u",), on="error"),
+        RM(fn="ehu", handlers=("h",), on="error", raw_marked=False), RM(fn="sdu", handlers=("d",), on="success", data="typed", data_ty="String", payload=("raw",)),
+        RM(fn="edu", handlers=("d",), on="error", payload=("raw",), raw_marked=False),
     ]
     n = 3 if tier == "thorough" else 2
     gid = 0
@@ -237,7 +239,7 @@ def run_e1(res, tier):
 
 def run_e2(res, tier):
     """Compiled twins: the same traces on a program and its reversed / rotated declaration order."""
-    base = [pc for pc in fam_basic.programs(tier) if pc[0] in ("pparts2", "psame0", "ptypes0")]
+    base = [pc for pc in fam_basic.programs(tier) if pc[0] in ("pparts2", "psame0", "ptypes0", "pprefix0")]
     cp = e2.Corpus("order-" + tier)
     progs = []
     for pid, c, tags in base:
